@@ -886,6 +886,17 @@ pub fn c04_server(thorough: bool) -> Part {
     cfg2.closure_all = true;
     cfg2.max_depth = 12;
     explore(&mut part, &cfg2, 300_000, if thorough { 600.0 } else { 60.0 });
+    // an over-limit declaration right behind a complete Expect request in the same segment:
+    // the 400 is due although an interim response is already queued
+    let mut seg = tagged_expect_head(0, 0, 3);
+    seg.extend_from_slice(b"abc");
+    seg.extend_from_slice(b"PUT /c0/r1 HTTP/1.1\r\nContent-Length: 99999999\r\n\r\n");
+    let mut seg2 = tagged_get(1, 0);
+    seg2.extend_from_slice(b"PUT /c1/r1 HTTP/1.1\r\nContent-Length: 51201\r\n\r\n");
+    let mut cfg3 = SrvCfg::base("C04", "over-limit declaration behind a complete Expect request / behind a plain request in one segment", vec![ClientCfg::well_behaved(vec![seg]), ClientCfg::well_behaved(vec![seg2])]);
+    cfg3.closure_all = true;
+    cfg3.max_depth = 14;
+    explore(&mut part, &cfg3, 300_000, if thorough { 600.0 } else { 60.0 });
     part
 }
 
@@ -913,6 +924,20 @@ pub fn c11_server(thorough: bool) -> Part {
         let mut good_then_bad = tagged_get(0, 0);
         good_then_bad.extend_from_slice(b"BAD LINE\r\n");
         cfgs.push(mk("valid request and garbage in one segment, then a valid request", vec![good_then_bad, tagged_get(0, 1)], vec![], vec![(0, 1)]));
+    }
+    {
+        // nine malformed requests in a row, each in its own segment, then a valid request;
+        // 9000 bytes of garbage in one segment (nine failing reads in a row), then a valid request
+        let mut script: Vec<Vec<u8>> = (0..9).map(|i| format!("BAD LINE {}\r\n", i).into_bytes()).collect();
+        script.push(tagged_get(0, 1));
+        let mut c = mk("nine malformed requests in a row, then a valid request", script, vec![], vec![(0, 1)]);
+        c.max_depth = 80;
+        cfgs.push(c);
+        let mut junk = vec![b'x'; 9000];
+        junk.extend_from_slice(b"\r\n");
+        let mut c = mk("9000 bytes of garbage in one segment, then a valid request", vec![junk, tagged_get(0, 1)], vec![], vec![(0, 1)]);
+        c.max_depth = 80;
+        cfgs.push(c);
     }
     if thorough {
         let mut long = b"GET /c0/r0".to_vec();
